@@ -302,6 +302,33 @@ static void j3(void) {
     VS_CHECK(ga.live_blocks == 0, "leak", "%llu allocation(s) still live after join", (unsigned long long)ga.live_blocks);
 }
 
+/* J4: second life of a thread handle.  A is launched and joined; B is launched (the system hands B the id A had, as glibc
+ * does); a re-launch on A is refused by the system (EAGAIN, an environment answer); the caller cleans A up as after any
+ * error.  None of that may touch B: joining B must still wait for its function and at-exit callback (added after a seeded
+ * change that left a refused handle joinable with its stale id, so that cleaning it up detached B's thread) */
+static void j4(void) {
+    setup();
+#ifdef VSX_FREE
+    return;
+#endif
+    n_atexit[1] = 1;
+    if (aws_thread_launch(&thr[0], body, &targs[0], NULL)) vs_fail("launch", "launch failed");
+    VS_CHECK(aws_thread_join(&thr[0]) == AWS_OP_SUCCESS, "join-result", "join of the first thread failed");
+    pthread_mutex_lock(&hm); /* B blocks inside its body until we let go */
+    if (aws_thread_launch(&thr[1], body, &targs[1], NULL)) vs_fail("launch", "launch failed");
+    vs_refuse_creates = 1;
+    int rc = aws_thread_launch(&thr[0], body, &targs[0], NULL);
+    VS_CHECK(rc == AWS_OP_ERR, "refused-launch-result", "re-launch with pthread_create refusing returned success");
+    aws_thread_clean_up(&thr[0]);
+    pthread_mutex_unlock(&hm);
+    VS_CHECK(aws_thread_join(&thr[1]) == AWS_OP_SUCCESS, "join-result", "join of the second thread failed (error %d) after the first handle's refused re-launch was cleaned up", aws_last_error());
+    VS_CHECK(vs_threads_unfinished() == 0, "join-early", "join returned while the thread is still running");
+    VS_CHECK(ran[0] == 1, "ran-once", "first thread function ran %d times", ran[0]);
+    check_thread(1, 2);
+    aws_thread_clean_up(&thr[1]);
+    VS_CHECK(ga.live_blocks == 0, "leak", "%llu allocation(s) still live", (unsigned long long)ga.live_blocks);
+}
+
 int main(int argc, char **argv) {
     v_init(argc, argv);
     aws_common_library_init(aws_default_allocator());
@@ -319,6 +346,7 @@ int main(int argc, char **argv) {
         {.name = "M7-two-join-all-callers", .run = m7, .bound_quick = 2, .bound_thorough = 3},
         {.name = "J1-joinable-at-exit", .run = j1, .bound_quick = 3, .bound_thorough = 5},
         {.name = "J3-refused-self-join-then-join", .run = j3, .bound_quick = 3, .bound_thorough = 5},
+        {.name = "J4-handle-reused-refused-relaunch", .run = j4, .bound_quick = 2, .bound_thorough = 4},
         {.name = "J2-managed-at-exit-plus-joinable", .run = j2, .bound_quick = 3, .bound_thorough = 4},
     };
     return vsx_main(sc, (int)(sizeof(sc) / sizeof(sc[0])));
